@@ -197,7 +197,7 @@ func runC02(seed int64, n int, dir string, tier string) *Report {
 				continue
 			}
 			a, b := d.NodeList, d2.NodeList
-			rep.NoteCase(fmt.Sprint(i, f, len(a.Nodes)), len(a.Edges) >= 2, map[string]any{"nodes": len(a.Nodes), "edges": len(a.Edges), "format": string(f)})
+			rep.NoteInput(fmt.Sprint(i, f, len(a.Nodes)), len(a.Edges) >= 2, map[string]any{"nodes": len(a.Nodes), "edges": len(a.Edges), "format": string(f)})
 			if !props.SameStrSet(props.NodeSet(a), props.NodeSet(b)) {
 				rep.Fail(Failure{What: "CycloneDX round trip changed the set of nodes", Detail: fmt.Sprintf("wrote %v read %v", props.Keys(props.NodeSet(a)), props.Keys(props.NodeSet(b))), Input: in})
 				continue
